@@ -622,7 +622,8 @@ def run(repo: Repo, rep: Report, tier: str) -> None:
                 n25 += 1
                 g25 = g25 or CFG(f25.node)
                 ok25 = g25.dominates(tp, ts) or tp.lineno < ts.lineno and not g25.dominates(ts, tp)
-                rep.check(ok25, "C15-R25", f"{f25.short}: `{norm(tp.test.left)}` is looked up among the parameters first", "parameter table first" if ok25 else
+                k25 = sum(1 for o in rep.obs if o.rule == "C15-R25" and o.construct.startswith(f25.short + ": name look-up")) + 1
+                rep.check(ok25, "C15-R25", f"{f25.short}: name look-up #{k25} asks the parameters first", "parameter table first" if ok25 else
                           "the table of declared names is asked first: inside a callee the caller's variable of that name answers for the parameter", f25.loc(ts))
         # an expression identifier resolved by name without the parameter table
         for iff in [n for n in walk_local(f25.node) if isinstance(n, ast.If) and "isinstance(" in norm(n.test) and "IdentifierExpr" in norm(n.test)]:
